@@ -1788,3 +1788,50 @@ func (cx *Ctx) checkContextKeys(r *Report) {
 		r.Fail("R-WHO", "context-key", "", "no context key with a constant value found: the issuer no longer travels in the request context under the module's key")
 	}
 }
+
+// privateHelpers: fn and the functions that are merely pieces of it - unexported, top-level, same package, never used
+// as a value, every call site of which lies in fn or in another such piece (two levels). A function that was split
+// into `sendPostResponse` / `sendRedirectResponse` is still one unit for the rules that speak about what it does.
+func (cx *Ctx) privateHelpers(fn *ssa.Function) []*ssa.Function {
+	fx := cx.Fx
+	if fx.sitesOf == nil {
+		fx.buildCallSites()
+	}
+	in := map[*ssa.Function]bool{fn: true}
+	out := []*ssa.Function{fn}
+	for round := 0; round < 2; round++ {
+		for _, f := range append([]*ssa.Function{}, out...) {
+			for _, c := range callsIn(f) {
+				g := calleeOf(c)
+				if g == nil || in[g] || g.Blocks == nil || g.Parent() != nil || g.Pkg != fn.Pkg || token.IsExported(g.Name()) || fx.addrTaken[g] {
+					continue
+				}
+				all := len(fx.sitesOf[g]) > 0
+				for _, s := range fx.sitesOf[g] {
+					if !in[s.Parent()] {
+						all = false
+					}
+				}
+				if all {
+					in[g] = true
+					out = append(out, g)
+				}
+			}
+		}
+	}
+	return out
+}
+
+// viaSite: for a call c inside one of fn's private helpers, the call instruction in fn through which c is reached
+// (c itself when it is in fn).
+func (cx *Ctx) viaSite(fn *ssa.Function, c ssa.CallInstruction) ssa.CallInstruction {
+	cur := c
+	for hops := 0; hops < 3 && cur.Parent() != fn; hops++ {
+		sites := cx.Fx.sitesOf[cur.Parent()]
+		if len(sites) == 0 {
+			return c
+		}
+		cur = sites[0]
+	}
+	return cur
+}
